@@ -243,8 +243,14 @@ let oracle line =
           bind_serial := 0;
           let script = List.map parse_op (List.tl (split_ws case)) in
           let evfree = List.for_all event_free_op script in
+          (* and of the two disciplines: a trace of client calls that the predictive checker (LifeSpec.v) accepts
+             must, with the library's frame references that the model recorded, be accepted by the checker for
+             histories with events (LifeSpecEv.v) *)
+          let full = (match run_script fixed fuel script with VOk h -> h.tr | VFault (_, _, h) -> h.tr | VNoFuel _ -> []) in
           if evfree && wf_client script && not (client_okb fuel script (heap0 fixed))
           then "BAD discipline accepts a history outside the theorems' hypothesis"
+          else if full <> [] && wf_client (List.filter client_call (List.rev full)) && not (wf_trace full)
+          then "BAD the discipline for histories with events rejects a trace that the client discipline accepts"
           else if oracle_W ops completed leak then "OK" else "BAD well-formed client, implementation: " ^ obs)
      | "O" :: toks ->
        let ops = List.map parse_oop toks in
